@@ -55,6 +55,7 @@ func c17Scenarios() []c17Scenario {
 		{Name: "loaded-meta-schema-expanded-in-place-vs-refs-into-it", Long: true, Threads: []c17Op{{Kind: "MetaLoadExpand", Variant: 1}, {Kind: "MetaExpand2", Variant: 2}}},
 		{Name: "gob-and-json-encode-shared-document", Threads: []c17Op{{Kind: "GobEncode", Variant: 3}, {Kind: "GobEncode", Variant: 3}, {Kind: "Marshal", Variant: 3}}},
 		{Name: "shared-cache-schemas-with-an-id", Threads: []c17Op{{Kind: "ExpandSchemaWithBasePath", Variant: 101, Elem: "/definitions/A", Cache: "shared"}, {Kind: "ExpandSchemaWithBasePath", Variant: 101, Elem: "/definitions/A", Cache: "shared"}}},
+		{Name: "ill-formed-locations-and-ids", Threads: []c17Op{{Kind: "IllFormed", Variant: 1}, {Kind: "IllFormed", Variant: 2}}},
 		{Name: "first-calls-race-on-lazy-init", Fresh: true, Threads: []c17Op{{Kind: "MetaExpand"}, {Kind: "ExpandSpec", Variant: 2}}},
 	}
 }
@@ -100,7 +101,7 @@ func c17Body(op c17Op, sh *c17Shared) func() interface{} {
 			return fmt.Sprintf("err=%v %x", err, sha(bb))
 		case "Lookup":
 			var out []string
-			for _, p := range []string{"/definitions/N0/items", "/paths/~1p/get/responses/200/schema", "/definitions/N1/title", "/parameters/P/name", "/plain-key", "/definitions/N0/plain", "/x-ext"} {
+			for _, p := range []string{"/definitions/N0/items", "/paths/~1p/get/responses/200/schema", "/definitions/N1/title", "/parameters/P/name", "/plain-key", "/definitions/N0/plain", "/x-ext", "/definitions/Ordered/properties/alpha/x-order", "/definitions/Ordered/properties/gamma/x-order"} {
 				ptr, _ := jsonpointer.New(p)
 				v, _, err := ptr.Get(sh.doc)
 				bb, _ := json.Marshal(v)
@@ -113,6 +114,22 @@ func c17Body(op c17Op, sh *c17Shared) func() interface{} {
 			err := spec.ExpandSchema(&s, nil, nil)
 			bb, _ := json.Marshal(s)
 			return fmt.Sprintf("err=%v %x len=%d", err, sha(bb), len(bb))
+		case "IllFormed":
+			// locations and ids that are not well-formed URIs (the library warns and repairs them)
+			var loads []string
+			loader := cs.loader(&loads)
+			var s spec.Schema
+			base := docURLs[0]
+			switch op.Variant {
+			case 1:
+				json.Unmarshal([]byte(`{"properties":{"a":{"$ref":"sib.json#/definitions/N1"}}}`), &s)
+				base = "%zz/root.json"
+			default:
+				json.Unmarshal([]byte(`{"id":"%zz/thing","properties":{"a":{"$ref":"sib.json#/definitions/N1"},"b":{"$ref":"#/properties/a"}}}`), &s)
+			}
+			err := spec.ExpandSchemaWithBasePath(&s, nil, &spec.ExpandOptions{RelativeBase: base, PathLoader: loader})
+			bb, _ := json.Marshal(s)
+			return fmt.Sprintf("err=%v loads=%v out=%s", err, loads, bb)
 		case "MetaLoadExpand":
 			// what a validator does: load "its" copy of a built-in meta-schema and expand it in place
 			s := spec.MustLoadJSONSchemaDraft04()
@@ -181,6 +198,13 @@ func c17Setup(sc c17Scenario) *c17Shared {
 				d.AddExtension("plain", 1.0)
 				sh.doc.Definitions["N0"] = d
 			}
+			// properties ordered by x-order values of several JSON types (the encoder reads them while sorting)
+			var ordered spec.Schema
+			json.Unmarshal([]byte(`{"title":"ordered","properties":{"alpha":{"x-order":"10"},"beta":{"x-order":"2"},"gamma":{"x-order":3},"delta":{"title":"unordered"}}}`), &ordered)
+			if sh.doc.Definitions == nil {
+				sh.doc.Definitions = spec.Definitions{}
+			}
+			sh.doc.Definitions["Ordered"] = ordered
 		}
 	}
 	return sh
